@@ -545,20 +545,28 @@ def sis_reference(G, seeds, tmin, tmax, duration, delays):
 UNSORTED = True
 
 
-def c13_native():
+def c13_native(trials=400):
     import EoN
     n = 0
     rng = random.Random(13)
-    for trial in range(150):
+    for trial in range(trials):
         Nn = rng.randint(2, 6)
         G = nx.gnp_random_graph(Nn, 0.6, seed=rng.randint(0, 10 ** 6))
+        if trial % 5 == 0:
+            G = nx.relabel_nodes(G, {u: u + 1 for u in G})          # no node labelled 0 / falsy
         nodes = list(G.nodes())
+        silent = {u for u in nodes if rng.random() < 0.3}           # nodes that never attempt a transmission
+        short = {u for u in nodes if rng.random() < 0.3}            # nodes with a short infectious period
+        tr = trial
         # distinct event times: incommensurable-ish deterministic values per (node, infection count) / (pair, count, index)
-        def duration(u, k):
-            return 0.731 + 0.413 * ((u * 7 + k * 3) % 5) + 0.0137 * u
-        def delays(u, v, k, unsorted=(UNSORTED and trial % 3 == 0)):
-            base = [0.211 + 0.397 * ((u * 5 + v * 3 + k) % 4) + 0.0071 * (u + 2 * v), 1.103 + 0.291 * ((u + v + k) % 3) + 0.0053 * (2 * u + v)]
-            m = (u + v + k) % 3
+        def duration(u, k, short=short):
+            return (0.331 if u in short else 0.731) + 0.413 * ((u * 7 + k * 3) % 5) + 0.0137 * u
+        def delays(u, v, k, unsorted=(UNSORTED and trial % 3 == 0), silent=silent, tr=tr):
+            if u in silent:
+                return []
+            base = [0.211 + 0.397 * ((u * 5 + v * 3 + k) % 4) + 0.0071 * (u + 2 * v), 1.103 + 0.291 * ((u + v + k) % 3) + 0.0053 * (2 * u + v),
+                    2.377 + 0.173 * ((2 * u + v + k) % 5) + 0.0031 * (u + 3 * v)]
+            m = (u + v + k + tr) % 4
             out = sorted(base)[:m]
             return out[::-1] if unsorted else out
         calls = {}
@@ -569,10 +577,10 @@ def c13_native():
             k = calls[u] - 1
             return [d for d in delays(u, v, k)]
         seeds = rng.sample(nodes, rng.randint(1, min(2, Nn)))
-        tmin = rng.choice([0, 1.5])
-        tmax = tmin + rng.choice([2.0, 3.5, 5.0])
+        tmin = rng.choice([0, 1.5, -3.25])
+        tmax = tmin + rng.choice([2.0, 3.5, 5.0, 8.0])
         n += 1
-        wit = dict(edges=list(G.edges()), seeds=seeds, tmin=tmin, tmax=tmax, unsorted_delay_lists=(trial % 3 == 0))
+        wit = dict(edges=list(G.edges()), nodes=nodes, seeds=seeds, tmin=tmin, tmax=tmax, unsorted_delay_lists=(trial % 3 == 0), silent_nodes=sorted(silent), short_period_nodes=sorted(short), trial=trial)
         try:
             sim = EoN.fast_nonMarkov_SIS(G, trans_time_fxn=trans_time_fxn, rec_time_fxn=rec_time_fxn, initial_infecteds=seeds, tmin=tmin, tmax=tmax, return_full_data=True)
         except Exception as e:
@@ -634,7 +642,7 @@ def c03_specs():
                   dg([(('A', 'S'), ('A', 'A'), dict(rate=1.0)), (('B', 'S'), ('B', 'B'), dict(rate=2.0)), (('A', 'B'), ('A', 'A'), dict(rate=0.3))]), ['S', 'A', 'B']))
     specs.append(('same-status pair rule', dg([('B', 'A', dict(rate=0.2))]), dg([(('A', 'A'), ('A', 'B'), dict(rate=1.0))]), ['A', 'B']))
     specs.append(('rate functions', dg([('I', 'R', dict(rate=1.0, rate_function=lambda G, node: 1.0 + G.degree(node)))]),
-                  dg([(('I', 'S'), ('I', 'I'), dict(rate=1.0, rate_function=lambda G, u, v: 0.5 + 0.25 * (G.degree(u) + G.degree(v))))]), ['S', 'I', 'R']))
+                  dg([(('I', 'S'), ('I', 'I'), dict(rate=1.0, rate_function=lambda G, u, v: 0.5 + 0.25 * G.degree(u) + 0.6 * G.degree(v) + 0.05 * u))]), ['S', 'I', 'R']))
     return specs
 
 
